@@ -12,3 +12,4 @@ import TsVerif.C03.Props
 #print axioms TsVerif.C03.glr_yield
 #print axioms TsVerif.C03.glr_select_max
 #print axioms TsVerif.C03.driver_sound
+#print axioms TsVerif.C03.parser_sound_per_grammar
